@@ -642,13 +642,19 @@ def run(ctx):
         "matmul/abs differ from the model's own complex dot product and sqrt by rounding only - cases whose greedy "
         "margin is below 1e-9 are discarded and counted",
         "evec_sort's optional arguments filter/threshold (default None) are not modelled",
+        "perturbation_gives_dominance / evec_sort_recovers_perturbed_permutation are theorems over R about exactly "
+        "orthonormal bases; the binary64 inputs of the run are orthonormal up to rounding, so strict row dominance is "
+        "also measured on every planted case (minimum margin in coverage.planted_row_dominance_min_margin) and the "
+        "planted permutation is checked by the oracle",
         "Python float()/int() are modelled on plain decimal numerals only; file iteration = splitting at newline",
         "the Python mirror of the printer in tools/props/c20.py is not trusted: each generated file is compared "
         "with MatdynModel.print_matdyn inside Coq before it counts",
     ]
     ctx.assumptions += [
         "greedy_recovers_dominant_perm needs strict row dominance of the planted permutation; "
-        "perturbation_gives_dominance supplies it for unitary bases and perturbations of norm < 1/2",
+        "perturbation_gives_dominance (proved, EvecPerturb.v) supplies it for orthonormal bases, unit phases and "
+        "perturbations of Euclidean norm <= eps < 1/2 (exact real arithmetic; the generated bases are orthonormal "
+        "up to rounding only, so the dominance margin is additionally measured on every planted case)",
         "matdyn_roundtrip: every numeral fits its column with at least one blank in front (vector components: "
         "at most 9 characters, because the reader's columns start one character after the Fortran field)",
     ]
@@ -679,7 +685,7 @@ def run(ctx):
             gap, low = greedy_margin(own_overlap(c["base"], c["target"]))
             c["gap"], c["low"] = gap, low
             if c["kind"] == "planted":
-                # hypothesis of greedy_recovers_row_dominant, measured (perturbation_gives_dominance is not proved)
+                # hypothesis of greedy_recovers_row_dominant, measured on the float data (perturbation_gives_dominance proves it over R)
                 a_ = own_overlap(c["base"], c["target"])
                 marg = min(a_[i, c["sigma"][i]] - max(numpy.delete(a_[i], c["sigma"][i])) for i in range(c["n"]))
                 dom_margins.append(float(marg))
@@ -694,12 +700,6 @@ def run(ctx):
     ctx.extra["evec_sort_near_tie_discarded"] = n_tie
     ctx.extra["planted_row_dominance_min_margin"] = min(dom_margins) if dom_margins else None
     ctx.partial += [
-        "perturbation_gives_dominance (unitary base + phases + perturbation of norm < 1/2 implies the dominance "
-        "hypothesis of greedy_recovers_dominant_perm) is not proved in Coq: strict row dominance is measured on every "
-        "planted case (minimum margin in coverage.planted_row_dominance_min_margin) and the planted permutation is "
-        "checked by the oracle",
-        "disp2eig_unit_norm / disp2eig_restores_basis are proved for real data; the complex model disp2eig_c is "
-        "covered by the correspondence run and the orthonormality oracle only",
         "evec_load on files outside the width hypothesis of matdyn_roundtrip (10-character vector components) is not "
         "claimed; see coverage.observation_wide_component",
     ]
